@@ -8,7 +8,7 @@
 
    Representation: a Python set of Routes is a strictly increasing list of integers; None among the
    sources is -1 ([none_dir]).  `sources` are not stored by the hardware: read-back returns {None}. *)
-From Coq Require Import ZArith List Bool Lia.
+From Coq Require Import ZArith List Bool Lia Sorted.
 Require Import Rig.Model.Base Rig.Generated.GenRouter Rig.Model.Tables Rig.Model.Router.
 Require Import Rig.Model.TablesWrapper Rig.Model.RouterProgram.
 Require Import Rig.Spec.Tables Rig.Spec.Router Rig.Spec.TablesWrapper.
@@ -66,6 +66,24 @@ Theorem C10_multisource_iff : forall routes net_keys,
   ((exists k m c, routing_tree_to_tables routes net_keys = RMultisource k m c)
    <-> conflict (all_visits routes net_keys)).
 Proof. exact multisource_iff. Qed.
+
+(* The link by which a visit enters its chip ([arrival], i.e. the model's in_direction, which looks the
+   direction up in the Routes.opposite table regenerated from the live enumeration): for a hop in direction
+   d it is (d + 3) mod 6, the hardware's numbering; a root has none (None); a core route has no opposite
+   (the conversion raises ValueError: outside [inputs_ok]). *)
+Theorem C10_arrival_is_opposite_link :
+  (forall d, 0 <= d < 6 -> in_direction d = Some ((d + 3) mod 6))
+  /\ in_direction none_dir = Some none_dir
+  /\ (forall d, 6 <= d < 24 -> in_direction d = None).
+Proof. exact (conj in_direction_link (conj in_direction_root in_direction_core)). Qed.
+
+(* Out sets are canonical (strictly increasing), so the list (in)equalities of [conflict], [first_conflict]
+   and [tables_spec] -- and the model's comparison standing for Python's set comparison -- are set
+   (in)equalities. *)
+Theorem C10_out_set_canonical : forall k1 k2,
+  StronglySorted Z.lt (out_set k1)
+  /\ (out_set k1 = out_set k2 <-> forall r, In r (out_set k1) <-> In r (out_set k2)).
+Proof. exact out_set_canonical. Qed.
 
 (* ================================================================================================ *)
 (** * The route word: sets of routes within 0..23 <-> 24-bit words *)
@@ -243,7 +261,10 @@ Theorem C10_load_step : forall m es x y a,
 Proof. exact load_step. Qed.
 
 (* the invariant of run_history ([history_ok], Spec/Router.v): statement by statement the above, on the
-   machine as the earlier statements left it; read-backs talk to the chip they name and change nothing *)
+   machine as the earlier statements left it; read-backs talk to the chip they name and change nothing.
+   (The conjuncts `res = ...`, `tr = ...` and `(g, tr) = ...` of [history_ok] only identify each report
+   with the call it reports -- bookkeeping, true by definition of run_history; the content is in the
+   item_at, first-command and routers-unchanged conjuncts.) *)
 Theorem C10_history_ok : forall ops m, history_ok m ops (fst (run_history m ops)).
 Proof. exact run_history_ok. Qed.
 
@@ -283,6 +304,18 @@ Proof.
   repeat constructor; try (eexists; reflexivity); simpl; repeat split; try (eexists; split; [reflexivity|]); try lia.
 Qed.
 
+(* two trees with the same key and mask that fork differently on chip (1, 0): the error names that chip *)
+Definition ex_tree3 : tree := TNode (1, 1) [(Some 5, TNode (1, 0) [(Some 8, TLeaf 7)])].
+
+Example C10_multisource_example :
+  inputs_ok [(1, ex_tree1); (3, ex_tree3)] [(1, (10, 255)); (3, (10, 255))]
+  /\ routing_tree_to_tables [(1, ex_tree1); (3, ex_tree3)] [(1, (10, 255)); (3, (10, 255))]
+     = RMultisource 10 255 (1, 0).
+Proof.
+  split; [|reflexivity].
+  repeat constructor; try (eexists; reflexivity); simpl; repeat split; try (eexists; split; [reflexivity|]); try lia.
+Qed.
+
 Definition ex_chip : chipstate :=
   mk_chip (free_slot 0 4294967295 0 0 0) [(5, mkSlot 0 66 3 1 2)] [(1, 4); (6, 1018)] false
           1612972032 16384 170 1895759872.
@@ -299,4 +332,20 @@ Proof.
     unfold len. rewrite repeat_length. vm_compute. intuition congruence.
   - constructor; [|constructor; [|constructor]]; unfold entry_ok; cbn [e_route e_key e_mask];
       (split; [intros r Hr; simpl in Hr; intuition lia|lia]).
+Qed.
+
+(* a well-formed chip whose free list is too small for the table: the hypotheses of
+   C10_alloc_failure_installs_nothing *)
+Definition ex_full_chip : chipstate :=
+  mk_chip (free_slot 0 4294967295 0 0 0) [(5, mkSlot 0 66 3 1 2)] [(9, 1); (700, 1)] false
+          1612972032 16384 170 1895759872.
+
+Example C10_alloc_failure_example :
+  chip_ok ex_full_chip /\ rtr_alloc ex_full_chip 2 = (ex_full_chip, 0).
+Proof.
+  split; [|reflexivity].
+  unfold chip_ok, ex_full_chip, mk_chip. cbn [cs_slots cs_free cs_buf cs_bufmem cs_rtr_copy].
+  split; [vm_compute; reflexivity|].
+  split; [constructor; [simpl; lia|]; constructor; [simpl; lia|]; constructor|].
+  unfold len. rewrite repeat_length. vm_compute. intuition congruence.
 Qed.
